@@ -145,6 +145,9 @@ def grid_outcomes(prot):
     if is_doc(prot):
         out.append({"kind": "malformed"})
     out.append({"kind": "wsdl"})
+    # a listener on the documented `wsdl` event edits the document before it is sent
+    out.append({"kind": "wsdl", "edit": "append"})
+    out.append({"kind": "wsdl", "edit": "replace"})
     out.append({"kind": "wsdl-error"})      # ?wsdl with an injected failure of WSDL generation
     return out
 
@@ -231,6 +234,9 @@ def hyp_cases(tier):
                  "stream-raw", "fault", "exception", "unserializable", "validation",
                  "unknown-method", "wsdl", "wsdl-error"] + (["malformed"] if is_doc(prot) else [])
         k = draw(st.sampled_from(kinds))
+        if k == "wsdl":
+            e = draw(st.sampled_from([None, "append", "replace"]))
+            return {"kind": k, "edit": e} if e else {"kind": k}
         if k == "ok-prim":
             return {"kind": k, "ret": draw(_TXTB)}
         if k == "ok-complex":
@@ -759,6 +765,13 @@ def run_case(case, rec):
         def _boom(url):
             raise RuntimeError("injected failure of WSDL generation")
         wsgi_app.doc.wsdl11.build_interface_document = _boom
+    if case["outcome"].get("edit"):
+        def _edit(ctx, how=case["outcome"]["edit"]):
+            if how == "append":
+                ctx.transport.wsdl = ctx.transport.wsdl + b"<!-- edited by a wsdl listener -->"
+            else:
+                ctx.transport.wsdl = b"<definitions/>"
+        wsgi_app.event_manager.add_listener("wsdl", _edit)
     obs = Obs()
     app.event_manager.add_listener("method_context_closed",
                                    lambda ctx: obs.log.append("ctx-closed"))
